@@ -26,7 +26,22 @@ func (x *Exec) contractOf(fn *ssa.Function) *Contract {
 
 // frameEnv builds the spec environment of a frame at the current state.
 func (x *Exec) frameEnv(st *State, fr *Frame) *cenv {
-	env := &cenv{x: x, st: st, old: x.entry, names: fr.names, oldNames: x.entryNames, pkg: pkgOf(fr.fn)}
+	// names visible at this point: the frame's own locals, then those of the enclosing frames (closures
+	// called back from Map.Walk see the variables of the function that created them)
+	names := fr.names
+	if fr.parent != nil {
+		names = map[string]Value{}
+		var chain []*Frame
+		for f := fr; f != nil; f = f.parent {
+			chain = append(chain, f)
+		}
+		for i := len(chain) - 1; i >= 0; i-- {
+			for k, v := range chain[i].names {
+				names[k] = v
+			}
+		}
+	}
+	env := &cenv{x: x, st: st, old: x.entry, names: names, oldNames: x.entryNames, pkg: pkgOf(fr.fn)}
 	if !fr.isTop {
 		// inlined callee: old() still refers to the entry of the verified function
 		env.oldNames = fr.names
@@ -352,10 +367,11 @@ func (x *Exec) callWrites(cc *ssa.CallCommon, seen map[*ssa.Function]bool) (map[
 			return out, false
 		}
 		if mc, ok := cc.Value.(*ssa.MakeClosure); ok {
+			x.bindStaticClosure(mc)
 			return x.fnWrites(mc.Fn.(*ssa.Function), seen)
 		}
 		// a callback held in a captured variable / parameter whose runtime value is known
-		if v, ok := x.freeBind[derefValue(cc.Value)]; ok {
+		if v, ok := x.staticFnValue(cc.Value, 0); ok {
 			switch f := v.(type) {
 			case CloV:
 				x.bindFree(f.Fn, f.Free)
@@ -404,16 +420,42 @@ func (x *Exec) callWrites(cc *ssa.CallCommon, seen map[*ssa.Function]bool) (map[
 		}
 		if m == "Walk" && len(cc.Args) >= 4 {
 			if mc, ok := cc.Args[3].(*ssa.MakeClosure); ok {
+				x.bindStaticClosure(mc)
 				return x.fnWrites(mc.Fn.(*ssa.Function), seen)
 			}
 			if f, ok := cc.Args[3].(*ssa.Function); ok {
 				return x.fnWrites(f, seen)
+			}
+			// a callback received as a parameter / captured variable whose value is known
+			if v, ok := x.staticFnValue(cc.Args[3], 0); ok {
+				switch f := v.(type) {
+				case CloV:
+					x.bindFree(f.Fn, f.Free)
+					return x.fnWrites(f.Fn, seen)
+				case FnV:
+					return x.fnWrites(f.Fn, seen)
+				}
 			}
 			return out, true
 		}
 		return out, false
 	}
 	if inRepo(fn) && fn.Blocks != nil {
+		// function-valued arguments that are closure literals: remember them for the callee's analysis
+		if x.freeBind == nil {
+			x.freeBind = map[ssa.Value]Value{}
+		}
+		for i, a := range cc.Args {
+			if i >= len(fn.Params) {
+				break
+			}
+			if _, isFn := fn.Params[i].Type().Underlying().(*types.Signature); !isFn {
+				continue
+			}
+			if v, ok := x.staticFnValue(a, 0); ok {
+				x.freeBind[fn.Params[i]] = v
+			}
+		}
 		return x.fnWrites(fn, seen)
 	}
 	return out, false
@@ -676,6 +718,53 @@ func (x *Exec) closureWrites(fn *ssa.Function) map[int]bool {
 		}
 	}
 	return out
+}
+
+// staticFnValue resolves a function-typed SSA value to a known closure / function for the write analysis.
+func (x *Exec) staticFnValue(v ssa.Value, depth int) (Value, bool) {
+	if depth > 6 || v == nil {
+		return nil, false
+	}
+	if b, ok := x.freeBind[v]; ok {
+		return b, true
+	}
+	switch a := v.(type) {
+	case *ssa.MakeClosure:
+		x.bindStaticClosure(a)
+		return FnV{Fn: a.Fn.(*ssa.Function)}, true
+	case *ssa.Function:
+		return FnV{Fn: a}, true
+	case *ssa.UnOp:
+		return x.staticFnValue(a.X, depth+1)
+	case *ssa.Alloc:
+		if refs := a.Referrers(); refs != nil {
+			for _, r := range *refs {
+				if st, ok := r.(*ssa.Store); ok && st.Addr == a {
+					return x.staticFnValue(st.Val, depth+1)
+				}
+			}
+		}
+	}
+	return nil, false
+}
+
+// bindStaticClosure propagates known function values into the captured variables of a closure literal.
+func (x *Exec) bindStaticClosure(mc *ssa.MakeClosure) {
+	fn := mc.Fn.(*ssa.Function)
+	if x.freeBind == nil {
+		x.freeBind = map[ssa.Value]Value{}
+	}
+	for i, b := range mc.Bindings {
+		if i >= len(fn.FreeVars) {
+			break
+		}
+		if _, isFn := deref(fn.FreeVars[i].Type()).Underlying().(*types.Signature); !isFn {
+			continue
+		}
+		if v, ok := x.staticFnValue(b, 0); ok {
+			x.freeBind[fn.FreeVars[i]] = v
+		}
+	}
 }
 
 func derefValue(v ssa.Value) ssa.Value {
